@@ -13,7 +13,7 @@ from . import c13 as C13
 PROPERTY = 'C08'
 LEVEL = 'exploration'
 RULE = ('(i) fragment sets: 1-4 fragments per set, atomistic (G-mol + G-render) or coarse (named graphs), each atom with 0-3 '
-        'descriptors in any order, orders 0-3, all four kinds, labelled or not, leading or not, around ring digits, 12 % with a group whose bonds are written : between upper-case atoms: '
+        'descriptors in any order, orders 0-3, all four kinds, labelled or not, leading or not, around ring digits, 12 % with a group whose bonds are written : between upper-case atoms, 30 % spelled along an arbitrary spanning tree: '
         'read_fragments(write_cgsmiles_fragments(F)) must give fragments isomorphic to F on element / node name, charge, '
         'aromatic flag, ORDERED descriptor list per atom and bond order. (ii) complete strings from the C01 / C10 / C06 '
         'generators (cut, shared, multi-level, coarse last level): write_cgsmiles(resolver.molecule, resolver.fragment_dicts) '
@@ -54,7 +54,9 @@ def frag_set_case(rng):
         if coarse:
             text, _ = M.render_coarse_fragment(rng, g, list(g.nodes), desc)
         else:
-            r_ = M.render_fragment(rng, g, list(g.nodes), desc, opts={'explicit_single': 0.0})
+            r_ = M.render_fragment(rng, g, list(g.nodes), desc, opts={'explicit_single': 0.0, 'non_dfs_tree': 0.3})
+            if g.number_of_edges() >= len(g):
+                feats.add('ring_fragment_any_spanning_tree')
             text = r_['text']
             if rng.random() < 0.2:
                 # explicitly written (and sometimes annotated) hydrogens are atoms of the fragment: they must come back
